@@ -298,6 +298,52 @@ def forEachFlagRestored : Bool := true
 def consumeAt {α : Type} (insideForEach : Bool) (src : Src α) (rep : Bool) (m : Nat) : List α × Bool :=
   consumeAtWith forEachFlagRestored insideForEach src rep m
 
+/-! ### several consumers: every iterator object has its own state -/
+
+/-- what a consumer can do with *its* iterator -/
+inductive Op where
+  | next                  -- take one value (`next()`)
+  | renew (rep : Bool)    -- drop the iterator and build a new one (what every execution of a
+                          -- `for_each` template does: the dataset function is called again)
+  deriving Repr, DecidableEq
+
+/-- one operation on one iterator state; `none` = the operation returns nothing -/
+def stepOp {α : Type} (src : Src α) (it : Iter α) : Op → Option (Out α) × Iter α
+  | .next => (some (next src it).1, (next src it).2)
+  | .renew rep => (none, create src rep)
+
+/-- a consumer alone: its operations in order -/
+def runOps {α : Type} (src : Src α) : Iter α → List Op → List (Option (Out α)) × Iter α
+  | it, [] => ([], it)
+  | it, op :: ops =>
+    let r := stepOp src it op
+    let rs := runOps src r.2 ops
+    (r.1 :: rs.1, rs.2)
+
+/-- Two consumers (`true` = A, `false` = B), each with its own iterator state and its own source
+    (the same file read twice is two sources with equal content), under an arbitrary interleaving
+    of their operations.  The state of the pair is a *pair of states*: nothing is shared — in the
+    code: `rows = [… for row in d]` is a new list per `start()`, `self.results` a new generator. -/
+def runTwo {α : Type} (srcA srcB : Src α) : Iter α × Iter α → List (Bool × Op) →
+    List (Bool × Option (Out α)) × (Iter α × Iter α)
+  | st, [] => ([], st)
+  | (a, b), (who, op) :: ops =>
+    if who then
+      let r := stepOp srcA a op
+      let rs := runTwo srcA srcB (r.2, b) ops
+      ((true, r.1) :: rs.1, rs.2)
+    else
+      let r := stepOp srcB b op
+      let rs := runTwo srcA srcB (a, r.2) ops
+      ((false, r.1) :: rs.1, rs.2)
+
+/-- the operations / results of one of the two consumers, in order -/
+def projOps (who : Bool) (ops : List (Bool × Op)) : List Op :=
+  (ops.filter (fun p => p.1 == who)).map (·.2)
+
+def projOuts {α : Type} (who : Bool) (outs : List (Bool × Option (Out α))) : List (Option (Out α)) :=
+  (outs.filter (fun p => p.1 == who)).map (·.2)
+
 /-! ### update mode -/
 
 /-- Update mode: `build_update_recipe` creates ONE iterator over the input file at parse time
